@@ -77,8 +77,8 @@ def value_outcome(x, depth=0):
 def forest_outcome(forest, ntrees=10):
     out = {"forest": True}
     try:
-        n = len(forest)
-        out["len"] = n
+        n = forest.solutions  # not len(): the count may exceed sys.maxsize
+        out["len"] = n if n < 2**62 else str(n)
     except Exception as e:
         out["len"] = {"exc": type(e).__name__}
         n = 0
